@@ -26,7 +26,7 @@ LEVEL_NOTE = 'Trusted: h11 0.16, rig/refcodec.py (RFC 9112 7.1 decoder), the gen
 TECHNIQUE = 'runtime monitoring of codec return values: round-trip laws + differential testing against h11 and a reference chunked decoder'
 RULE = ('case = (law, generated arguments); laws: L1 request build->parse, L2 response build->parse, L3 parse->build->parse, '
         'L4 update_body->build, L5 to_chunks/decoder inverse for every chunk size, L6 decoder vs reference decoder, '
-        'L7 canned/ok/redirect responses; non-trivial = message has a body or >=2 headers; distinct = law x argument hash')
+        'L7 canned/ok/redirect responses, L8 builders with a reused / Content-Length-carrying headers dict; non-trivial = message has a body or >=2 headers; distinct = law x argument hash')
 ASSUMPTIONS = ['arguments stay in the valid domain: token methods/names, CRLF-free values and reasons, status 100-599, '
                'bodies only where a body is allowed, no_cl only together with conn_close']
 SHARDS = {'quick': 8, 'thorough': 16}
@@ -287,6 +287,27 @@ def law_L6(rng: random.Random, out: Dict[str, Any]) -> None:
         return
     if cp.state != chunkParserStates.COMPLETE or cp.body != rb or rem != b'TRAIL':
         out['bad'].append(('ours-differs-from-reference', {'state': cp.state, 'body': len(cp.body), 'rem': rem[:40]}))
+        return
+    # the same stream handed to the decoder in pieces (as a socket would deliver it) must decode to the same body
+    for _ in range(4):
+        data = stream + b'TRAIL'
+        cuts = sorted({rng.randint(1, len(stream) - 1) for _ in range(rng.choice([1, 2, 4, 9]))}) if len(stream) > 1 else []
+        pieces = G.cut_at(data, cuts)
+        cp = ChunkParser()
+        rem = b''
+        try:
+            for k, pc in enumerate(pieces):
+                rem = bytes(cp.parse(memoryview(pc)))
+                if cp.state == chunkParserStates.COMPLETE:
+                    rem += b''.join(pieces[k + 1:])
+                    break
+        except Exception as e:
+            out['bad'].append(('ours-piecewise-exception:' + type(e).__name__, {'cuts': cuts, 'err': repr(e)}))
+            return
+        out['extra_obs'] = {'L6_piecewise_feeds': out.get('extra_obs', {}).get('L6_piecewise_feeds', 0) + 1}
+        if cp.state != chunkParserStates.COMPLETE or cp.body != rb or rem != b'TRAIL':
+            out['bad'].append(('ours-piecewise-differs-from-reference', {'cuts': cuts, 'state': cp.state, 'body': len(cp.body), 'want': len(rb), 'rem': rem[:40]}))
+            return
 
 
 def law_L7(rng: random.Random, out: Dict[str, Any]) -> None:
@@ -320,7 +341,54 @@ def law_L7(rng: random.Random, out: Dict[str, Any]) -> None:
         out['bad'].append(('differs', (msgs[0]['code'], len(got))))
 
 
-LAWS = ['L1', 'L2', 'L3', 'L4', 'L5', 'L6', 'L7']
+def _consistent(raw: bytes, want_code: int, want_body: bytes) -> Optional[Tuple[str, Any]]:
+    """A response generated by the library is self-consistent for an independent parser: one complete message,
+    nothing left over, body (after undoing gzip) equal to the content that was asked for."""
+    msgs, err, left = h11util.parse_responses(raw, [b'GET'], eof=False)
+    if err or len(msgs) != 1 or not msgs[0]['complete'] or left:
+        return ('h11-rejects', err or ('msgs=%d complete=%s left=%d' % (len(msgs), [m['complete'] for m in msgs], len(left))))
+    got = msgs[0]['body']
+    if hmap(msgs[0]['headers']).get(b'content-encoding') == b'gzip':
+        try:
+            got = gzip.decompress(got)
+        except Exception as e:
+            return ('bad-gzip', repr(e))
+    if msgs[0]['code'] != want_code or got != want_body:
+        return ('differs', (msgs[0]['code'], len(got), len(want_body)))
+    return None
+
+
+def law_L8(rng: random.Random, out: Dict[str, Any]) -> None:
+    """Builders called the way plugins call them: a headers dict that is reused for several responses (module- or
+    class-level constant), and/or that already carries a Content-Length (as seeOthersResponse itself passes one).
+    Every response must be self-consistent and must not depend on what was built before with the same dict."""
+    out['nontrivial'] = True
+    shared: Dict[bytes, bytes] = dict(gen_headers(rng, rng.randint(0, 2), [b'content-length', b'content-encoding', b'connection', b'transfer-encoding']))
+    bodies = [G.body_bytes(rng, rng.choice([0, 1, 7, 19, 21, 30, 300, 5000])) for _ in range(rng.choice([2, 3]))]
+    mode = rng.choice(['ok', 'ok', 'build', 'reject'])
+    preset_cl = rng.random() < 0.4
+    out['cls'] = '%s-%s' % (mode, 'preset-cl' if preset_cl else 'shared')
+    out['input'] = {'mode': mode, 'bodies': [len(b) for b in bodies], 'preset_content_length': preset_cl, 'shared_headers': len(shared)}
+    if preset_cl:
+        shared[rng.choice([b'Content-Length', b'content-length'])] = b'%d' % len(bodies[0])
+    for k, body in enumerate(bodies):
+        if mode == 'ok':
+            raw = bytes(okResponse(content=body, headers=shared, compress=True, min_compression_length=20))
+            code = 200
+        elif mode == 'build':
+            code = rng.choice([200, 404, 500])
+            raw = build_http_response(code, reason=b'X', headers=shared, body=body)
+        else:
+            from proxy.http.exception import HttpRequestRejected
+            code = 403
+            raw = bytes(HttpRequestRejected(status_code=403, reason=b'No', headers=shared, body=body).response(None))      # type: ignore[arg-type]
+        bad = _consistent(raw, code, body)
+        if bad:
+            out['bad'].append(('call%d-%s' % (min(k, 1) + 1, bad[0]), {'why': bad[1], 'head': raw[:200]}))
+            return
+
+
+LAWS = ['L1', 'L2', 'L3', 'L4', 'L5', 'L6', 'L7', 'L8']
 
 
 def run_case(case: Dict[str, Any]) -> Dict[str, Any]:
